@@ -59,7 +59,7 @@ def determinism(tier, seed, ids):
                 c = json.loads(line[8:])
         ok = a == b == c and not any(str(x[0]).startswith("harness") for x in a)
         report[pid] = {"histories": n, "same_16_vs_3_workers": a == b, "same_in_fresh_interpreter_other_hashseed": a == c,
-                       "wall_s": round(time.monotonic() - t0, 1)}
+                       "wall_s": round(time.monotonic() - t0, 1), "seed": seed, "tier": tier}
         print("  %s: %d histories x 3 executions: %s (%.0fs)" % (pid, n, "identical" if ok else "DIFFERENT", time.monotonic() - t0), flush=True)
         if not ok:
             bad += 1
@@ -69,8 +69,15 @@ def determinism(tier, seed, ids):
             if c is None:
                 print("    fresh interpreter output: %s" % (p.stdout[-500:] + p.stderr[-500:]))
     os.makedirs(os.path.join(core.VERIF_DIR, "selftest"), exist_ok=True)
-    with open(os.path.join(core.VERIF_DIR, "selftest", "determinism.json"), "w") as f:
-        json.dump({"seed": seed, "tier": tier, "report": report}, f, indent=1, sort_keys=True)
+    path = os.path.join(core.VERIF_DIR, "selftest", "determinism.json")
+    try:  # entries of checks not run this time are kept (each carries its own seed and tier)
+        with open(path) as f:
+            old = json.load(f).get("report", {})
+    except (OSError, ValueError):
+        old = {}
+    old.update(report)
+    with open(path, "w") as f:
+        json.dump({"seed": seed, "tier": tier, "report": old}, f, indent=1, sort_keys=True)
     if bad:
         print("HARNESS-ERROR selftest determinism: %d checks not deterministic" % bad)
         return core.EXIT_HARNESS
